@@ -436,9 +436,15 @@ class BaseFeatureWriter:
             x, y = collapse_varscalar(x_value), collapse_varscalar(y_value)
         else:
             if anchor is None:
-                if glyphName not in self.context.font:
+                # read the pre-processed glyph (the one the outlines are built
+                # from) when we have it, not the unfiltered source glyph
+                compiler = self.context.compiler
+                glyphSet = (
+                    compiler.glyphSet if compiler is not None else self.context.font
+                )
+                if glyphName not in glyphSet:
                     return None
-                glyph = self.context.font[glyphName]
+                glyph = glyphSet[glyphName]
                 anchors = [
                     anchor for anchor in glyph.anchors if anchor.name == anchorName
                 ]
